@@ -33,6 +33,7 @@ Trusted(h) == h # 3
 EndpointName(h) == IF h = 1 THEN "http://A" ELSE IF h = 2 THEN "https://A" ELSE "https://B"
 
 TlsInit(h0) ==
+  /\ pmode = "distinct"
   /\ cpc = "send" /\ follow \in FollowModes /\ followNow = follow
   /\ target = [host |-> h0, path |-> 0] /\ host0 = h0
   /\ expect = [host |-> h0, path |-> 0] /\ ended = FALSE
@@ -55,7 +56,7 @@ T_ConnFail ==
   /\ \/ ~Deliverable
      \/ (OnWire = "tls" /\ ~Trusted(target.host) /\ "SkipVerify" \notin Dev)
   /\ cpc' = "error"
-  /\ UNCHANGED <<follow, followNow, target, host0, expect, ended, sent, reqs, inflight, resp, got, wire, proto>>
+  /\ UNCHANGED <<pmode, follow, followNow, target, host0, expect, ended, sent, reqs, inflight, resp, got, wire, proto>>
 
 T_Respond == Srv_Respond /\ UNCHANGED <<wire, proto>>
 
@@ -69,7 +70,7 @@ Srv_ToUntrusted ==
           /\ sent' = Append(sent, inflight')
           /\ expect' = [host |-> 3, path |-> i + 1]
   /\ cpc' = "read"
-  /\ UNCHANGED <<follow, followNow, target, host0, ended, reqs, resp, got, wire, proto>>
+  /\ UNCHANGED <<pmode, follow, followNow, target, host0, ended, reqs, resp, got, wire, proto>>
 
 T_Read == Cl_Read /\ UNCHANGED <<wire, proto>>
 
